@@ -992,8 +992,45 @@ func c20For(r *Rec, prop string, alias map[string]string) {
 	for k := 0; k < np; k++ {
 		c20BondEpisode(r, 2004+5*k)
 	}
+	c20PrefixFinishStrand(r)
 	r.OnlyProp, r.Alias = "", nil
 	r.Mark("l2 done")
+}
+
+// c20PrefixFinishStrand (deterministic): dApp "alpha" is fully bonded and reaches the end of its bootstrap while "alphab" -
+// created later, with the bond of a third user on record - is still bootstrapping; then the other way round ("alphab"
+// finishes or fails first). Finishing, launching or removing one dApp leaves the bond records of the other's users alone.
+func c20PrefixFinishStrand(r *Rec) {
+	for variant := 0; variant < 4; variant++ {
+		names := []string{"alpha", "alphab"}
+		ep := newL2Ep(r, 4, names, []string{"alp", "bet"}, 1, 5, 100, -1)
+		r.Mark(fmt.Sprintf("prefix finish strand %d", variant))
+		first, second := 0, 1
+		if variant%2 == 1 {
+			first, second = 1, 0
+		}
+		firstBond := int64(2 * l2unit) // reaches the minimum: launches
+		if variant >= 2 {
+			firstBond = l2unit / 2 // stays below the minimum: removed, bonders refunded
+		}
+		d1 := ep.mkDapp(names[first], []string{"alp", "bet"}[first], "0.5", 50, 100, 0, "0.01", 1, 1)
+		if firstBond < l2unit {
+			// an under-minimum creation needs the exemption: create with the minimum, then reclaim down
+			ep.create(1, d1, "ukex", l2unit)
+			ep.reclaim(1, names[first], "ukex", l2unit/2)
+		} else {
+			ep.create(1, d1, "ukex", firstBond)
+		}
+		ep.endBlock(50)
+		d2 := ep.mkDapp(names[second], []string{"alp", "bet"}[second], "1", 50, 100, 0, "0.01", 2, 2)
+		ep.create(2, d2, "ukex", l2unit)
+		ep.bond(3, names[second], "ukex", 400000)
+		ep.endBlock(51) // the first dApp's bootstrap period ends here, the second one's 50 s later
+		ep.reclaim(3, names[second], "ukex", 100000)
+		ep.bond(3, names[second], "ukex", 50000)
+		ep.endBlock(51)
+		ep.endBlock(6)
+	}
 }
 
 var c20Ratios = []string{"0.5", "1", "0.000010000000000000", "2.5", "0.333333333333333333", "0.000001500000000000"}
